@@ -27,7 +27,7 @@ def sources_of(v, bounded_ok=False):
             if not a[1].startswith(('row:', '?')):
                 out.add(a[1])
         elif k == 'ITER':
-            if a[1] and not a[1].startswith(('gen:', 'local', 'merge', '?', 'bounded:', 'row:')):
+            if a[1] and not a[1].startswith(('gen:', 'local', 'merge', '?', 'bounded:', 'row:', 'mat:')):
                 out.add(a[1])
         elif k in ('ROW', 'HDR'):
             out.add(a[1] + '[]')
